@@ -191,7 +191,7 @@ def i_SLTIU(ins, fmap):
 @__npc
 def i_SLL(ins, fmap):
     dst, src1, src2 = ins.operands
-    src2 = src2 & 0x1F
+    src2 = src2 & 0x3F
     if dst is not zero:
         fmap[dst] = fmap(src1 << src2)
 
@@ -199,7 +199,7 @@ def i_SLL(ins, fmap):
 @__npc
 def i_SRL(ins, fmap):
     dst, src1, src2 = ins.operands
-    src2 = src2 & 0x1F
+    src2 = src2 & 0x3F
     if dst is not zero:
         fmap[dst] = fmap(src1 >> src2)
 
@@ -207,7 +207,7 @@ def i_SRL(ins, fmap):
 @__npc
 def i_SRA(ins, fmap):
     dst, src1, src2 = ins.operands
-    src2 = src2 & 0x1F
+    src2 = src2 & 0x3F
     if dst is not zero:
         fmap[dst] = fmap(oper(OP_ASR, src1, src2))
 
@@ -309,6 +309,12 @@ def i_SH(ins, fmap):
 @__npc
 def i_SW(ins, fmap):
     dst, src = ins.operands
+    fmap[dst] = fmap(src[0:32])
+
+
+@__npc
+def i_SD(ins, fmap):
+    dst, src = ins.operands
     fmap[dst] = fmap(src)
 
 
@@ -327,7 +333,28 @@ def i_LBU(ins, fmap):
     fmap[dst] = fmap(src).zeroextend(64)
 
 
-i_LHU = i_LBU
+i_LHU = i_LWU = i_LBU
+i_LD = i_LB
+
+# RV64I instructions operating on the low 32 bits (result sign-extended to 64 bits):
+
+
+def _word(i_xxx):
+    def op32(ins, fmap):
+        dst, src1, src2 = ins.operands
+        fmap[pc] = fmap(pc) + ins.length
+        if dst is not zero:
+            res = i_xxx(fmap(src1[0:32]), fmap(src2[0:32]))
+            fmap[dst] = res.signextend(64)
+
+    return op32
+
+
+i_ADDW = i_ADDIW = _word(lambda a, b: a + b)
+i_SUBW = _word(lambda a, b: a - b)
+i_SLLW = i_SLLIW = _word(lambda a, b: a << (b & 0x1F))
+i_SRLW = i_SRLIW = _word(lambda a, b: a >> (b & 0x1F))
+i_SRAW = i_SRAIW = _word(lambda a, b: oper(OP_ASR, a, b & 0x1F))
 
 
 @__npc
